@@ -209,6 +209,8 @@ pub enum NoiseTail {
     AllOnes,
     /// tail of a real frame (end sequence + crc)
     FrameTail,
+    /// concatenated fragments of the start sequence (false starts such as 1b1b1b1b 01 1b 010101)
+    Fragments,
 }
 
 impl NoiseTail {
@@ -220,12 +222,13 @@ impl NoiseTail {
             NoiseTail::StartPrefix(k) => format!("start[..{}]", k),
             NoiseTail::AllOnes => "all-1b".into(),
             NoiseTail::FrameTail => "frame-tail".into(),
+            NoiseTail::Fragments => "fragments".into(),
         }
     }
 }
 
 pub fn all_noise_tails() -> Vec<NoiseTail> {
-    let mut v = vec![NoiseTail::Empty, NoiseTail::Random, NoiseTail::AllOnes, NoiseTail::FrameTail];
+    let mut v = vec![NoiseTail::Empty, NoiseTail::Random, NoiseTail::AllOnes, NoiseTail::FrameTail, NoiseTail::Fragments, NoiseTail::Fragments];
     for k in 1..=9 {
         v.push(NoiseTail::Ones(k));
     }
@@ -278,6 +281,25 @@ pub fn noise(rng: &mut Rng, tail: NoiseTail, body_len: usize) -> Vec<u8> {
             }
             NoiseTail::AllOnes => {
                 g = vec![0x1b; body_len.max(1)];
+            }
+            NoiseTail::Fragments => {
+                g.clear();
+                let n = rng.range(1, 6);
+                for _ in 0..n {
+                    match rng.below(5) {
+                        0 => g.extend(std::iter::repeat(0x1bu8).take(rng.range(1, 6))),
+                        1 => g.extend(std::iter::repeat(0x01u8).take(rng.range(1, 4))),
+                        2 => {
+                            let k = rng.range(5, 7);
+                            g.extend_from_slice(&START[..k]);
+                        }
+                        3 => {
+                            let k = rng.range(1, 7);
+                            g.extend_from_slice(&START[k..]);
+                        }
+                        _ => g.push(*rng.pick(&[0x02u8, 0x00, 0x1a, 0x55])),
+                    }
+                }
             }
             NoiseTail::FrameTail => {
                 let f = ref_encode(&rng.bytes_in(0, 12));
@@ -355,7 +377,7 @@ pub fn safe_cuts(p: &[u8]) -> (Vec<u8>, Vec<usize>) {
 
 /// a random stream drawn from all adversarial families
 pub fn any_stream(rng: &mut Rng) -> Vec<u8> {
-    match rng.below(10) {
+    match rng.below(11) {
         0 | 1 => adversarial_frame(rng),
         2 | 3 => {
             let f = ref_encode(&payload::any_payload(rng));
@@ -383,9 +405,35 @@ pub fn any_stream(rng: &mut Rng) -> Vec<u8> {
             s
         }
         6 => rng.biased_in(0, 80, &[0x1b, 0x01, 0x1a, 0x00]),
-        _ => {
+        7 => {
+            // an (invalid-escape / broken) prefix directly followed by a frame that lost the first bytes of
+            // its start sequence
+            let mut s = START.to_vec();
+            s.extend_from_slice(&rng.biased_in(0, 6, &[0x00, 0x55]));
+            s.extend_from_slice(&ESC);
+            let pl: [u8; 4] = match rng.below(4) {
+                0 => [0x1b, 0x1b, 0x1b, 0x55],
+                1 => [0x1b, 0x1b, 0x55, 0x1b],
+                2 => [0x1b, 0x55, 0x00, 0x00],
+                _ => [0x02, 0x1b, 0x1b, 0x1b],
+            };
+            s.extend_from_slice(&pl);
+            let f = ref_encode(&payload::any_payload(rng));
+            let k = rng.range(0, 4);
+            s.extend_from_slice(&f[k..]);
+            s
+        }
+        8 | 9 => {
             let k = rng.range(2, 8);
             concat_stream(rng, k)
+        }
+        _ => {
+            // valid frame with its first 1..7 bytes missing, possibly after a few 0x1b
+            let f = ref_encode(&payload::any_payload(rng));
+            let k = rng.range(1, 7);
+            let mut s = vec![0x1b; rng.below(4)];
+            s.extend_from_slice(&f[k..]);
+            s
         }
     }
 }
